@@ -96,7 +96,14 @@ pub fn run(sim: &Sim, prop: &str, tier: Tier) -> Outcome {
             }
         }
         any_fault_configured = p.wb + p.displaced + p.short + p.interrupted + p.hard + p.flush_err > 0;
-        wire.borrow_mut().tx = TxPolicy { placed: None, ..p };
+        // rarely: one very long would-block burst before one early unit ("any number of times")
+        let placed = if kind != LinkKind::Serial && sim.chance(3) {
+            sim.probe("long_would_block_burst");
+            Some((sim.draw(40), TxFault::WouldBlock(sim.pick(&[12_000u32, 70_000, 300_000]))))
+        } else {
+            None
+        };
+        wire.borrow_mut().tx = TxPolicy { placed, ..p };
     }
 
     // expected stream: the library's own fragmenter and frame encoders define "its frames"
